@@ -427,7 +427,7 @@ fields, or an error-class hop; distinct by decoded-choice digest.",
     ],
     randoms: &[RandomDef {
         name: "chains",
-        cases: |t: Tier| t.pick(500_000, 40_000_000),
+        cases: |t: Tier| t.pick(1_200_000, 40_000_000),
         tape_len: 200,
         exec: None,
     }],
